@@ -138,7 +138,7 @@ DEPS = {
             ("C08", {"C08-R4"}, "absorbed keys and the absorbing trigger are (re)written whenever an absorbing mapping fires"),
             ("C10", None, "the event loop hands every event to the mapper"), ("C18", {"C18-R3"}, "the reader returns every key record it reads")],
     "C07": C19_ALL + LAYOUT_VERBATIM + CONVERTER_REPEAT + [("C18", {"C18-R2"}, "the writer emits one record per event of the batch, in order")],
-    "C08": IP_EXACT + CONVERTER_ALIASES + [("C18", {"C18-R3"}, "the reader drops auto-repeat records (value 2) and returns every press/release record")],
+    "C08": IP_EXACT + CONVERTER_ALIASES + ACTION_KEY_TABLE + [("C18", {"C18-R3"}, "the reader drops auto-repeat records (value 2) and returns every press/release record")],
     "C09": LAYOUT_VERBATIM + CONVERTER_REPEAT,
     "C10": [("C18", {"C18-R3"}, "the reader consumes one input_event record per read() and returns every key record it reads")],
     "C12": [("C06", None, "release_all returns the mapper to rest")] + C01_ALL + C19_ALL + STEP_TABLE + [("C10", {"C10-R1", "C10-R7", "C10-R8"}, "the Driver adapters hand every readiness event and every record through"),
@@ -148,6 +148,7 @@ DEPS = {
              "alias-combination indices, definition counts >= 1 and from_table indices are in range by construction (the reasons of the reviewed ledger entries)"),
             ("C01", {"C01-R4", "C01-R6"}, "remove_mapping is only called with the index of a complete count-down sweep over active_mappings and removes exactly that one entry")],
     "C11": CONVERTER_REPEAT + [("C12", {"C12-R2"}, "a tablet-mode event (On or Off) stops the repeat timer: the mapper is reset there, so nothing would ever cancel the repeat")],
+    "C16": [("C18", {"C18-T2"}, "every KeyCode variant carries its kernel key code: the capability bitmaps of the device list are numbered by the kernel, and `KeyCode::X as i32` is what the keyboard test looks up in them")],
     "C19": [("C10", {"C10-R3"}, "the loop writes every non-empty step result exactly once, in order"),
             ("C12", {"C12-R1", "C12-R2"}, "the mapper is stepped only while its output is being written (not in tablet mode), and the release_all batch of a tablet event is written exactly once "
                                           "(a batch the mapper has accounted for but the device never saw makes every later event redundant)")],
